@@ -821,4 +821,103 @@ example :
     (readPx (0 : Rat) ["A", "B"] cal { element := some "C", calibrate := false, flat := false, layer := none }).isNone = true := by
   decide +kernel
 
+/-! ## same-parity layers of different lengths -/
+
+/-- **The reconstruction of a stack whose layers differ in length.**  `Crossed` fixes one length per layer kind; the
+code does not need that: for every stack with `l0` lines in the even and `l1` lines in the odd layers in which EVERY
+layer holds the warm-up and the samples read from it (`Ragged`; excess samples differ from layer to layer), every integer
+magnification `M ≥ 1`, any non-empty offsets: the validity check accepts (it reads layers 0 and 1), `krisskross`
+succeeds with the shape of the crossed case, every voxel is the closed formula `voxel` (which never mentions a line
+length) and every source index exists.  (The converse direction is where `Crossed` matters: acceptance looks at the
+first two layers only, so for a ragged stack it does not imply that a later layer is long enough.) -/
+theorem krisskross_voxel_ragged {α : Type} (z : α) (c : SrrConfig) (M : Nat) (hM : 1 ≤ M)
+    (hscan : 0 < c.scantime) (hoffs : c.offs ≠ []) (layers : List (Arr2 α)) (l0 l1 wn : Nat)
+    (hw : c.warmup = (wn : Int)) (hr : Ragged layers l0 l1 M wn) :
+    validForData c (M : Rat) layers = some true ∧
+    ∃ out, krisskross z c (M : Rat) layers = some out ∧
+      out.rows = reconRows l0 M (subpixelsPerPixel c.size (M : Rat)) c.offs ∧
+      out.cols = reconCols l1 M (subpixelsPerPixel c.size (M : Rat)) c.offs ∧
+      out.depth = layers.length ∧
+      (∀ r cc i, out.get r cc i
+        = voxel z l0 l1 M (subpixelsPerPixel c.size (M : Rat)) wn c.offs layers r cc i) ∧
+      (∀ r cc i, i < layers.length →
+        voxelInRange l0 l1 M (subpixelsPerPixel c.size (M : Rat)) wn c.offs layers r cc i = true) := by
+  have hal := aligned_ragged z c M hM layers l0 l1 wn hw hr
+  obtain ⟨h2, hs⟩ := hr
+  have e0 : layers[0]? = some layers[0] := List.getElem?_eq_getElem (by omega)
+  have e1 : layers[1]? = some layers[1] := List.getElem?_eq_getElem (by omega)
+  have a0 := hs 0 _ e0
+  have a1 := hs 1 _ e1
+  simp only [Nat.zero_mod, if_true] at a0
+  simp only [show (1 : Nat) % 2 = 1 from rfl, Nat.one_ne_zero, if_false] at a1
+  refine ⟨?v, ?w, ?e, ?a, ?b, ?d, ?f, ?g⟩
+  case v =>
+    unfold validForData
+    rw [e0, e1]
+    simp only [magInt_natCast M hM, magAxis_natCast M hM, Arr2.dim, if_true, a0.1, a1.1, hw]
+    have hsign : ¬ c.warmupSeconds < 0 := by
+      unfold SrrConfig.warmupSeconds
+      rw [fl_neg_iff, hw]
+      have : (0 : Rat) ≤ ((wn : Int) : Rat) := by exact_mod_cast Int.natCast_nonneg wn
+      have := mul_nonneg this hscan.le
+      linarith
+    rw [if_neg hsign]
+    have b0 : ¬ ((layers[0].cols : Int) < (wn : Int) + ((l1 * M : Nat) : Int)) := by
+      have := a0.2; push_cast; omega
+    have b1 : ¬ ((layers[1].cols : Int) < (wn : Int) + ((l0 * M : Nat) : Int)) := by
+      have := a1.2; push_cast; omega
+    rw [if_neg b0, if_neg b1]
+  case e =>
+    unfold krisskross
+    rw [hal]
+    simp only
+    rw [subpixelOffset_dup z _ c.offs hoffs]
+  case a => rfl
+  case b => rfl
+  case d => rfl
+  case f =>
+    intro r cc i
+    generalize subpixelsPerPixel c.size (M : Rat) = p
+    simp only [voxel, inFootprint, sourceIndex, Bool.and_eq_true, decide_eq_true_eq]
+    cases hl : layers[i]? with
+    | none => simp
+    | some l =>
+      simp only [and_assoc]
+      split_ifs <;> rfl
+  case g =>
+    intro r cc i hi
+    generalize subpixelsPerPixel c.size (M : Rat) = p
+    have hl : layers[i]? = some layers[i] := List.getElem?_eq_getElem hi
+    have hsh := hs i _ hl
+    simp only [voxelInRange, hl, inFootprint, sourceIndex, Bool.and_eq_true, decide_eq_true_eq]
+    split
+    · rename_i hf
+      obtain ⟨⟨⟨_, f2⟩, _⟩, f4⟩ := hf
+      have a1' : (r - layerOffset c.offs i) / p < l0 * M :=
+        Nat.div_lt_of_lt_mul (by rw [Nat.mul_comm]; omega)
+      have a2' : (cc - layerOffset c.offs i) / p < l1 * M :=
+        Nat.div_lt_of_lt_mul (by rw [Nat.mul_comm]; omega)
+      by_cases hpar : i % 2 = 0
+      · simp only [hpar, if_true] at hsh ⊢
+        rw [hsh.1]
+        simp only [Bool.and_eq_true, decide_eq_true_eq]
+        exact ⟨Nat.div_lt_of_lt_mul (by rw [Nat.mul_comm]; exact a1'), by omega⟩
+      · simp only [hpar, if_false] at hsh ⊢
+        rw [hsh.1]
+        simp only [Bool.and_eq_true, decide_eq_true_eq]
+        exact ⟨Nat.div_lt_of_lt_mul (by rw [Nat.mul_comm]; exact a2'), by omega⟩
+    · rfl
+
+/-- non-vacuity: three layers, the third (even) one two samples longer than the first -/
+example :
+    let mk : Nat → Nat → Arr2 Int := fun r c => { rows := r, cols := c, get := fun a b => a * 100 + b }
+    Ragged [mk 2 4, mk 3 3, mk 2 6] 2 3 1 1 := by
+  refine ⟨by decide, ?_⟩
+  intro i l hl
+  match i with
+  | 0 => simp at hl; subst hl; simp
+  | 1 => simp at hl; subst hl; simp
+  | 2 => simp at hl; subst hl; simp
+  | (k + 3) => simp at hl
+
 end Pew.Srr
